@@ -125,8 +125,8 @@ pub fn slices() -> Vec<Slice> {
         ],
         wrap: None,
         grammar: Grammar {
-            atoms: vec![id("a"), int(1), int(2), id("f")],
-            func_atoms: vec![id("p")],
+            atoms: vec![id("a"), int(1), id("c"), id("f")],
+            func_atoms: vec![id("p0"), id("p1")],
             infix: vec![Operator::Subtract, Operator::Lt],
             callees: vec![("f".into(), 1), ("g".into(), 2)],
             array_max: 2,
@@ -235,7 +235,7 @@ pub fn slices() -> Vec<Slice> {
         wrap: None,
         grammar: Grammar {
             atoms: vec![id("a"), int(1), string("s")],
-            func_atoms: vec![id("p")],
+            func_atoms: vec![id("p0"), id("p1")],
             infix: vec![Operator::Add, Operator::Lt],
             prefix: vec![Operator::Subtract],
             index_bases: vec![id("a"), array(vec![int(1)])],
@@ -275,7 +275,7 @@ pub fn for_each_program(
 ) -> bool {
     let bound = if tier == Tier::Quick { sl.bound.0 } else { sl.bound.1 };
     let en = Enumerator::new(sl.grammar.clone());
-    let ctx = Ctx { in_loop: false, in_func: sl.in_func, loop_depth: 0 };
+    let ctx = Ctx { in_loop: false, in_func: sl.in_func, loop_depth: 0, func_depth: 0 };
     let cell = std::cell::RefCell::new(sh);
     cell.borrow_mut().group_mode = true;
     let mut ok = true;
@@ -310,6 +310,52 @@ pub fn for_each_program(
 pub fn count_programs(sl: &Slice, tier: Tier) -> u64 {
     let bound = if tier == Tier::Quick { sl.bound.0 } else { sl.bound.1 };
     let en = Enumerator::new(sl.grammar.clone());
-    let ctx = Ctx { in_loop: false, in_func: sl.in_func, loop_depth: 0 };
+    let ctx = Ctx { in_loop: false, in_func: sl.in_func, loop_depth: 0, func_depth: 0 };
     (1..=bound).map(|n| en.count_blocks(n, ctx)).sum()
+}
+
+/// Directed family: a function nested in a function, the inner one reading / writing / combining
+/// every name of the outer one, of itself, a global and an undeclared name, for every small shape of
+/// parameter and local counts (the situations in which slot numbers of two contexts can be confused).
+pub fn nested_function_programs() -> Vec<Vec<Stmt>> {
+    let mut out = Vec::new();
+    for np in 0..=3usize {
+        for nl in 0..=2usize {
+            for ip in 0..=2usize {
+                for il in 0..=1usize {
+                    let oparams: Vec<String> = (0..np).map(|i| format!("a{i}")).collect();
+                    let olocals: Vec<String> = (0..nl).map(|i| format!("l{i}")).collect();
+                    let iparams: Vec<String> = (0..ip).map(|i| format!("q{i}")).collect();
+                    let ilocals: Vec<String> = (0..il).map(|i| format!("m{i}")).collect();
+                    let mut names: Vec<String> = Vec::new();
+                    names.extend(oparams.iter().cloned());
+                    names.extend(olocals.iter().cloned());
+                    names.extend(iparams.iter().cloned());
+                    names.extend(ilocals.iter().cloned());
+                    names.push("g".into());
+                    names.push("z".into());
+                    for n in &names {
+                        for kind in 0..4 {
+                            let use_ = match kind {
+                                0 => es(id(n)),
+                                1 => es(assign(id(n), int(5))),
+                                2 => es(infix(id(n), Operator::Add, int(1))),
+                                _ => es(infix(int(10), Operator::Subtract, id(n))),
+                            };
+                            let mut ibody: Vec<Stmt> = ilocals.iter().enumerate().map(|(i, l)| let_(l, int(40 + i as i64))).collect();
+                            ibody.push(use_);
+                            let ipr: Vec<&str> = iparams.iter().map(|s| s.as_str()).collect();
+                            let inner = call(func("", &ipr, ibody), (0..ip).map(|i| int(30 + i as i64)).collect());
+                            let mut obody: Vec<Stmt> = olocals.iter().enumerate().map(|(i, l)| let_(l, int(20 + i as i64))).collect();
+                            obody.push(es(array(vec![int(99), inner])));
+                            let opr: Vec<&str> = oparams.iter().map(|s| s.as_str()).collect();
+                            let outer = call(func("", &opr, obody), (0..np).map(|i| int(10 + i as i64)).collect());
+                            out.push(vec![let_("g", int(7)), es(outer)]);
+                        }
+                    }
+                }
+            }
+        }
+    }
+    out
 }
